@@ -1,0 +1,12 @@
+//go:build verif
+
+package config
+
+// Contracts for the gvc verifier (/verif). Comment-only; never compiled into
+// a normal build.
+
+//gvc:func ObjectFormat.Size
+//gvc:  props C10
+//gvc:  theory int
+//gvc:  ensures twenty: result == 20 || result == 32
+//gvc:end
